@@ -70,6 +70,8 @@ def run(ctx):
             java_opts='-XX:TieredStopAtLevel=1' if ctx.quick else None)
     path = dump + '.dump' if os.path.exists(dump + '.dump') else dump
     states = [s for s in parse_dump(path) if s['pk']]
+    # TLC's workers dump in any order: canonical order, so that a run is a function of the tree and VERIF_SEED only
+    states.sort(key=lambda s: (s['lane'], s['fam'], len(s['pk']), json.dumps(s['pk'])))
     os.remove(path)
     with open(os.path.join(ctx.scratch, 'vectors.ndjson'), 'w') as f:
         for s in states:
@@ -130,7 +132,7 @@ def run(ctx):
                 why = (i.get('why') or {}).get('0', '')
                 what = 'a write carries something that is no packet of the batch'
         elif alt != 'ok':
-            key = 'altered:%s:%s' % (cls, re.sub(r'[^a-z0-9-]+', '-', why.split(': ')[-1].lower()) or 'bytes')
+            key = 'altered:%s:%s' % (':'.join(cls.split(':')[:2]), re.sub(r'[^a-z0-9-]+', '-', why.split(': ')[-1].lower()) or 'bytes')
             what = 'packet %d (%s) reaches the tun altered beyond the fields the kernel rewrites (%s)' % (who, cls, why)
         elif order != 'ok':
             key, what = 'reordered:%s' % cls, 'packet %d (%s) comes out after a later packet of its flow and session' % (who, cls)
